@@ -307,7 +307,7 @@ PARTS = [
     Part("cards", oracle_cards, strategy=cards, quick=(16, 300), thorough=(16, 5000)),
     # coverage-guided (atheris / libFuzzer) tier over the same strategies and oracles
     Part("fuzz_floats", oracle_float, strategy=floats, quick=(2, 4000), thorough=(8, 150000),
-         fuzz=dict(modules=["pyyeti.nastran.bulk"], time=25), tmax_thorough=400),
+         fuzz=dict(modules=["pyyeti.nastran.bulk"], time=25, time_thorough=300), tmax_thorough=400),
     Part("fuzz_cards", oracle_cards, strategy=cards, quick=(2, 1500), thorough=(8, 60000),
-         fuzz=dict(modules=["pyyeti.nastran.bulk"], time=25), tmax_thorough=400),
+         fuzz=dict(modules=["pyyeti.nastran.bulk"], time=25, time_thorough=300), tmax_thorough=400),
 ]
